@@ -7,6 +7,11 @@ from checkcfg import PROPS
 BASELINE = json.load(open('/root/.vp/BASELINE.json'))['cmd'] if os.path.exists('/root/.vp/BASELINE.json') else ''
 
 TEXT = {
+ "C10": dict(
+   technique="stateful property-based testing (rapid state machine) with a deposit-lifecycle reference model folded from the node's best chain and the pending set",
+   text="Histories rich in staking outputs (frozen period drawn from the legal range incl. the minimum), old-style binding before the warm-up height and new-style binding after it, withdrawals of matured staking and old-binding deposits, pending versions of deposits and withdrawals, and reorganisations across deposit and withdrawal blocks. After every step GetStakingHistory / GetBindingHistory (with and without excludeWithdrawn) are compared as multisets with the model (tx, index, height, amount, staking address / holder + binding target, frozen period, withdrawn flag, spent-by-pending flag, carried transaction); Spendable / withdrawable_* flip at the consensus height (C01 audit, run here too); explicit-input withdrawals built by CreateRawTransaction must carry sequence F+1 / binding lock, and the harness's replica of calcSequenceLock + SequenceLockActive must accept the built staking withdrawal exactly from the height at which the deposit is reported withdrawable. Exploration: sampled histories.",
+   note="Trusted: mass-core as the node. New-style binding withdrawals are never put on chain (the node cannot connect such a block), so for them only the built transaction's sequence and the withdrawable flag are checked. Consensus parameters scaled by profile small (min frozen period 2, warm-up height 14, binding lock 5, min staking value 0.01 MASS).",
+   ref="DESIGN.md §3 C10"),
  "C09": dict(
    technique="stateful property-based testing (rapid state machine) with a pending-set reference model; wallet stores read back and decoded",
    text="On top of C01's world, generated unconfirmed transactions (spends of wallet coins, payments to the wallet, chains through wallet-owned and foreign outputs, duplicates, conflicting spends of one wallet coin) are delivered to the handler's mempool step and interleaved with blocks that confirm a generated subset, confirm conflicting spends, and reorganisations that un-confirm them (re-mined / dropped / double-spent through a wallet coin). After every step the pending-set model (insert, dedupe, settle once, purge conflict with ALL unconfirmed descendants, return on un-confirm) is compared with: the pending store read back and decoded to the same transaction, GetUtxo.spent_by_unmined of every wallet coin, the inputs of AutoCreateRawTransaction drafts, residue in the pending-input and pending-credit stores, and C01's ledger audit (pending credits not counted, confirmed exactly once). Three defects found this way were repaired (fix: 910897a, 30c03a0, d073483) and stay as deterministic regression histories. Exploration: sampled histories.",
